@@ -304,3 +304,39 @@ def dataclass_fields(cls: ast.ClassDef) -> list[str]:
                 continue
             out.append(st.target.id)
     return out
+
+
+class SeqPatterns:
+    """Mixin for ``pyint.Interp`` subclasses: ``match`` sequence patterns with a star (``case [first, *rest]``) and mapping patterns
+    (``case {"k": v, **rest}``), which the core interpreter does not model (it answers a starred sequence pattern with "no match"
+    whenever the subject's length differs from the number of sub-patterns).  Semantics as in PEP 634; str / bytes are no sequences."""
+
+    def match(self, pat, subj, env, mod, depth) -> bool:
+        if isinstance(pat, ast.MatchSequence) and any(isinstance(p, ast.MatchStar) for p in pat.patterns):
+            if not isinstance(subj, (list, tuple)):
+                return False
+            stars = [i for i, p in enumerate(pat.patterns) if isinstance(p, ast.MatchStar)]
+            if len(stars) != 1:
+                raise AnalysisError("pyint: several starred sub-patterns in one sequence pattern")
+            i = stars[0]
+            tail = len(pat.patterns) - i - 1
+            if len(subj) < len(pat.patterns) - 1:
+                return False
+            head_s, mid, tail_s = subj[:i], subj[i:len(subj) - tail], subj[len(subj) - tail:] if tail else []
+            for p, s in list(zip(pat.patterns[:i], head_s)) + list(zip(pat.patterns[i + 1:], tail_s)):
+                if not self.match(p, s, env, mod, depth):
+                    return False
+            if pat.patterns[i].name:
+                env[pat.patterns[i].name] = list(mid)
+            return True
+        if isinstance(pat, ast.MatchMapping):
+            if not isinstance(subj, dict):
+                return False
+            keys = [self.ev(k, env, mod, depth) for k in pat.keys]
+            for k, p in zip(keys, pat.patterns):
+                if k not in subj or not self.match(p, subj[k], env, mod, depth):
+                    return False
+            if pat.rest:
+                env[pat.rest] = {k: v for k, v in subj.items() if k not in keys}
+            return True
+        return super().match(pat, subj, env, mod, depth)
